@@ -33,7 +33,11 @@ for pandas; (x,y,z) / (w,x,y,z) for the bag writer vs reader). C06.6: the bag
 time split takes sec by floor and nanosec from the *fractional remainder*
 (stamp - sec) * 1e9 — computing nanoseconds from the full epoch-sized stamp
 times 1e9 exceeds float64's integer range and loses up to 128 ns — and the
-reader uses the reciprocal constant.
+reader uses the reciprocal constant; every bag export call of the command-line
+tools passes the frame id stored with the trajectory it writes. C06.7: the
+message helpers take the fields as they are (instances of C07.1). C06.8: the
+trajectory constructors store what the readers parsed as given (instances of
+C07.8).
 """
 UNDECIDED = [
     "that the bag's float -> (sec, nanosec) -> float path stays within 1 ns "
@@ -58,7 +62,7 @@ MANIFEST = dict(
               "terms + layout algebra composition",
 )
 FLOORS = {"C06.1": 2, "C06.2": 8, "C06.3": 6, "C06.4": 2, "C06.5": 6,
-          "C06.6": 3, "C06.7": 2}
+          "C06.6": 3, "C06.7": 2, "C06.8": 4}
 
 LOSSY = ("builtins.round", "numpy.round", "numpy.around", "numpy.rint",
          "numpy.trunc", "numpy.floor", "numpy.ceil", "numpy.fix",
@@ -186,6 +190,10 @@ def check(ctx):
     n = import_rules(ctx, "c07", ("C07.1",), "C06.7",
                      pred=lambda o: ":msg:" in o.key)
     ctx.require(n >= 2, "C06.7: message-field instances not found")
+    # loading hands the parsed columns to the trajectory constructors: they
+    # must store them as given (instances of C07.8)
+    n = import_rules(ctx, "c07", ("C07.8",), "C06.8")
+    ctx.require(n >= 4, "C06.8: constructor instances not found")
     ctx.analysed_fn(*(FI + n for n in (
         "write_tum_trajectory_file", "write_kitti_poses_file",
         "read_tum_trajectory_file", "read_kitti_poses_file", "save_res_file",
@@ -529,6 +537,36 @@ def check(ctx):
            f"df_to_trajectory rebuilds {fmt(rf.ret)}",
            key="C06.5:pandas:from_df")
     ctx.section(_bag, ctx, prog)
+    ctx.section(_bag_callers, ctx, prog)
+
+
+def _bag_callers(ctx, prog):
+    """'export to a ROS1 bag preserves ... the frame id': every export call
+    passes the frame id stored with the *exported* trajectory (its
+    meta["frame_id"]), not that of another object"""
+    n = 0
+    for q, r in sorted(sweep(prog, "plain").items()):
+        if not q.startswith("evo.main_"):
+            continue
+        for e in r.calls(FI + "write_bag_trajectory"):
+            if tm.is_const(e.live, False):
+                continue
+            b = e.data["bound"] or {}
+            tr, fid = b.get("traj"), b.get("frame_id")
+            owners = {x.args[0] for x in (fid.walk() if fid is not None
+                                          else ()) if x.op == "attr" and
+                      x.args[1] == "meta"}
+            n += 1
+            ok = tr is not None and owners == {tr}
+            ctx.ob("C06.6", e, ok,
+                   f"{q}: the bag export passes the frame id of the "
+                   f"trajectory it writes" if ok else
+                   f"{q}: the bag export of {fmt(tr)[:60]} passes the frame "
+                   f"id {fmt(fid)[:80]} — "
+                   + ("that of another object" if owners else
+                      "not the one stored with the trajectory"),
+                   key=f"C06.6:bag:caller-frame-id:{q}")
+    ctx.require(n >= 2, "bag export call sites of evo_traj not found")
 
 
 def _bag(ctx, prog):
